@@ -394,7 +394,7 @@ class DLTIFilter(object):
         if not isiterable(ic):
             ic = (ic, )
 
-        if isinstance(x, (tuple, list, ndarray)):
+        if isinstance(x, (tuple, list, ndarray)) and not isinstance(x, Sequence):
             x = seq(x)
         elif not isinstance(x, (Sequence, DiscreteTimeDomainExpression)):
             raise ValueError(
